@@ -17,6 +17,6 @@ theorem image_layout_matches_spec :
   decide +kernel
 
 /-- non-vacuity: the table is not empty and has one entry per quantity of the golden table -/
-example : Spec.imageLayout.length = 376 ∧ Generated.imageLayoutVals.length = 376 := by decide +kernel
+example : Spec.imageLayout.length = 674 ∧ Generated.imageLayoutVals.length = 674 := by decide +kernel
 
 end Pelite
